@@ -148,7 +148,8 @@ def tables(repo):
     t["writerLocLabels"] = re.findall(r'label\("(\w+)"', lc)
     wt = _body(xw, r"void XMLWriter::transition\(const edge_t& edge\)\s*\{", "XMLWriter::transition")
     t["writerTransitionAttributes"] = re.findall(r'writeAttribute\("(\w+)"', wt)
-    t["writerSelectAll"] = "edge.select[0]" not in lb
+    t["writerSelectAll"] = "edge.select[0]" not in lb and re.search(r"for \(uint32_t i = 0; i < edge\.select\.get_size\(\); \+\+i\)", lb) is not None
+    t["writerSelectDeclared"] = re.search(r"edge\.select\[i\]\.get_name\(\) \+ \" : \"", lb) is not None and "type[0].declaration()" in lb
     t["writerBranchpoints"] = "branchpoint" in _body(xw, r"void XMLWriter::taTempl\(const template_t& templ\)\s*\{", "XMLWriter::taTempl")
     lf = _body(xw, r"void XMLWriter::label\(const char\* kind, string data, int x, int y\)\s*\{", "XMLWriter::label")
     t["writerSkips"] = re.findall(r'if \(data == "([^"]*)"\)', lf)
@@ -201,6 +202,7 @@ def lean_text(t):
     o.append("def writerLocLabels : List String := " + strs(t["writerLocLabels"]))
     o.append("def writerTransitionAttributes : List String := " + strs(t["writerTransitionAttributes"]))
     o.append("def writerSelectAll : Bool := " + b(t["writerSelectAll"]))
+    o.append("def writerSelectDeclared : Bool := " + b(t["writerSelectDeclared"]))
     o.append("def writerBranchpoints : Bool := " + b(t["writerBranchpoints"]))
     o.append("def writerSkips : List String := " + strs(t["writerSkips"]))
     o.append("def writerStrips : List String := " + strs(t["writerStrips"]))
